@@ -388,6 +388,28 @@ func main() {
 				}
 				pager.FailPages = fp
 			}
+		case strings.HasPrefix(line, "poke "):
+			// poke OFFSET HEX: overwrite bytes of the image under the open handle
+			if f := strings.Fields(line); pager != nil && len(f) == 3 {
+				b, _ := hex.DecodeString(f[2])
+				copy(pager.Data[atoi(f[1]):], b)
+			}
+		case line == "rlock":
+			if db != nil {
+				if err := db.RLock(); err != nil {
+					fmt.Fprintf(out, "rlock err\n")
+				} else {
+					fmt.Fprintf(out, "rlock ok\n")
+				}
+			}
+		case line == "runlock":
+			if db != nil {
+				if err := db.RUnlock(); err != nil {
+					fmt.Fprintf(out, "runlock err\n")
+				} else {
+					fmt.Fprintf(out, "runlock ok\n")
+				}
+			}
 		case line == "reads":
 			if pager != nil {
 				fmt.Fprintf(out, "reads %d\n", pager.Reads)
